@@ -1,75 +1,5 @@
-import EmsModel.Core.Named
-import EmsModel.Core.Proto
-/-! Line-protocol driver for C03 (flatten / wind).
-array:  `t:2,y:3,x:4|0,1,2,…`   (dims `-` for a 0-d array)
-grids:  `face=y:3,x:4;left=yl:3,xl:5`
-ops:
-  `ravel  <grids> <default> <arr> <lin|->`
-  `wind   <grids> <default> <arr> <kind|-> <axis|-> <lin|->`
-  `uravel <arr> <dims,> <lin|->`
-  `uwind  <arr> <newdims> <lin>`
-  `mte    <arr> <dims,>`
-  `unused <names,|-> <prefix>`
-output: an array, a name, or `ERR` -/
+import EmsModel.Core.ArrProto
+/-! Line-protocol driver for C03 (flatten / wind); operations in `Core/ArrProto.lean`. -/
 open Ems Ems.Proto
-
-def parseDims? (s : String) : Option (List Dim) :=
-  if s == "-" then some [] else
-  Proto.allSome ((s.splitOn ",").map fun d =>
-    match d.splitOn ":" with
-    | [n, sz] => (parseNat? sz).map (fun k => (n, k))
-    | _ => none)
-
-def parseArr? (s : String) : Option (NArr Int) :=
-  match s.splitOn "|" with
-  | [d, v] => do
-      let dims ← parseDims? d
-      let vals ← parseIntList? v
-      some { dims := dims, data := vals }
-  | _ => none
-
-def showDims (ds : List Dim) : String :=
-  if ds.isEmpty then "-" else joinWith "," (ds.map fun d => s!"{d.1}:{d.2}")
-
-def showArr (a : NArr Int) : String := s!"{showDims a.dims}|{showIntList a.data}"
-
-def parseGrids? (s : String) : Option (List (String × List Dim)) :=
-  Proto.allSome ((s.splitOn ";").map fun g =>
-    match g.splitOn "=" with
-    | [k, ds] => (parseDims? ds).map (fun l => (k, l))
-    | _ => none)
-
-def parseNames (s : String) : List String := if s == "-" then [] else s.splitOn ","
-def opt (s : String) : Option String := if s == "-" then none else some s
-
-def showRes : Option (NArr Int) → String
-  | some a => showArr a
-  | none => "ERR"
-
-def step (line : String) : String :=
-  match words line with
-  | ["ravel", gs, dflt, arr, lin] =>
-    match parseGrids? gs, parseArr? arr with
-    | some grids, some a => showRes (({ grids := grids, default := dflt } : GridConv).ravel a (opt lin))
-    | _, _ => "BAD"
-  | ["wind", gs, dflt, arr, kind, axis, lin] =>
-    match parseGrids? gs, parseArr? arr, (if axis == "-" then some none else (parseInt? axis).map some) with
-    | some grids, some a, some ax =>
-      showRes (({ grids := grids, default := dflt } : GridConv).wind a (opt kind) ax (opt lin))
-    | _, _, _ => "BAD"
-  | ["uravel", arr, dims, lin] =>
-    match parseArr? arr with
-    | some a => showRes (a.ravelDims (parseNames dims) (opt lin))
-    | none => "BAD"
-  | ["uwind", arr, nd, lin] =>
-    match parseArr? arr, parseDims? nd with
-    | some a, some nd => showRes (a.windDim nd lin)
-    | _, _ => "BAD"
-  | ["mte", arr, dims] =>
-    match parseArr? arr with
-    | some a => showRes (a.moveToEnd (parseNames dims))
-    | none => "BAD"
-  | ["unused", names, pfx] => NArr.findUnused (parseNames names) pfx
-  | _ => "BAD"
-
+def step (line : String) : String := (Ems.ArrProto.step? (words line)).getD "BAD"
 def main : IO Unit := loop step
